@@ -48,7 +48,15 @@ namespace {
 #include SNIP_UPDATE_PREFIXED
 #include SNIP_CLZ
 #include SNIP_HS_DIGEST
+#ifdef VERIF_POW_STUB
+// a stand-in PoW predicate: perform_handshake must treat the predicate as a pure function of (claimed peer, this node, offered key, nonce,
+// difficulty) - whatever that function is. This one accepts a quarter of the (key, nonce) pairs. (The real predicate is decided in C19.)
+bool handshake_pow_valid(const PeerId&, const PeerId&, std::uint32_t initiator_public, std::uint64_t nonce, std::uint8_t difficulty) {
+    return difficulty == 0 || ((initiator_public ^ static_cast<std::uint32_t>(nonce) ^ static_cast<std::uint32_t>(nonce >> 32)) & 3u) == 0;
+}
+#else
 #include SNIP_HS_POW_VALID
+#endif
 #include SNIP_MATERIAL
 #include SNIP_AUTO
 }
@@ -123,3 +131,24 @@ extern "C" void h_c20_pow_gate(unsigned long k) {
         else { verif_assert(g_registered_keys == regs_before, "C20: rejection registers nothing"); verif_reach("rejected"); }
     }
 }
+#ifdef VERIF_POW_STUB
+// histories of k handshakes with the PoW gate closed for three quarters of the (key, nonce) pairs (stand-in predicate above): every
+// handshake - first, repeated inside the cooldown, repeated after it, with the same or another key or nonce - is accepted exactly when
+// the key is valid and the predicate holds for the offered (key, nonce)
+extern "C" void h_c20_history_pow(unsigned long k) {
+    PartialNode pn; Node* n = pn.node();
+    n->config_.handshake_pow_difficulty = 8;
+    const std::uint8_t cooldown = nondet_u8("cooldown_s") & 15; n->config_.handshake_cooldown = std::chrono::seconds(cooldown);
+    verif_env::start_clock();
+    for (unsigned long i = 0; i < k; ++i) {
+        verif_env::advance_clock();
+        const std::uint32_t pub = nondet_u32("offered_public"); const std::uint64_t nonce = nondet_u64("nonce");
+        const unsigned regs_before = g_registered_keys;
+        const bool accepted = n->perform_handshake(remote_id(), pub, nonce);
+        const bool pow_ok = handshake_pow_valid(remote_id(), n->id_, pub, nonce, 8);
+        verif_assert(accepted == (key_ok(pub) && pow_ok), "C20: every handshake of a history is accepted exactly when the offered key is valid and the PoW predicate holds for the offered (key, nonce)");
+        if (!accepted) verif_assert(g_registered_keys == regs_before, "C20: a rejected handshake registers no session key");
+        verif_reach(accepted ? "accepted" : "rejected");
+    }
+}
+#endif
